@@ -8,10 +8,10 @@ from common import *
 TIERS = {
     "quick": {"cfg": "MC_LogCall_Quick.cfg", "variants": "rotate", "shards": 8, "timeout": 600,
               "constants": {"MaxParams": 3, "MaxPos": 3, "MaxKw": 3, "MaxHaz": 1, "HazParams": 2, "HazPos": 2, "HazKw": 2,
-                            "hazard_names": 9, "FullOptParams": 1, "FullOptKw": 1, "KindParams": 2}},
+                            "hazard_names": 9, "FullOptParams": 1, "FullOptKw": 1, "KindParams": 2, "CtxParams": 2}},
     "thorough": {"cfg": "MC_LogCall_Thorough.cfg", "variants": [0, 1, 2, 3], "shards": 16, "timeout": 1500,
                  "constants": {"MaxParams": 4, "MaxPos": 4, "MaxKw": 2, "MaxHaz": 1, "HazParams": 3, "HazPos": 3, "HazKw": 2,
-                               "hazard_names": 11, "FullOptParams": 2, "FullOptKw": 1, "KindParams": 3}},
+                               "hazard_names": 11, "FullOptParams": 2, "FullOptKw": 1, "KindParams": 3, "CtxParams": 3}},
 }
 GUARDS = [("MC_LogCall_Broken1.cfg", "BrokenNoDupCheck"), ("MC_LogCall_Broken2.cfg", "BrokenNoDeviation")]
 SUMMARY = {
@@ -118,6 +118,11 @@ def run(prop, tier):
             for k, c in o.get("kinds", {}).items():
                 kinds[k] = kinds.get(k, 0) + c
         rep.cov["cases_by_target_kind"] = kinds
+        ctxs = {}
+        for o in outs:
+            for k, c in o.get("contexts", {}).items():
+                ctxs[k] = ctxs.get(k, 0) + c
+        rep.cov["cases_by_calling_context"] = ctxs
         rep.cov["exhaustive"] = True
         rep.sample({"record": lines[0]})
         rep.sample({"record": lines[len(lines) // 2]})
@@ -162,12 +167,14 @@ def report(rep, x):
     target = x["source"].splitlines()[1 if x["call"][2] else 0].strip()
     if kind != "plain":
         target = "[target kind %s] %s -> %s" % (kind, target, " ".join(l.strip() for l in x["source"].splitlines()[3:] if not l.strip().startswith("_whook")))
+    if x.get("context", "top") != "top":
+        target = "[called inside %s] %s" % ({"action": "start_action(action_type='c18:outer')", "private": "start_action(MemoryLogger(), 'c18:outer')"}[x["context"]], target)
     what = "%s with %s, call(%d positional, keywords %s%s), body %s: clause %s fails; decorated: %s" % (
         target, x["decorator"], x["call"][0], x["call"][1],
         ", via instance" if x["call"][2] else "", x["opt"][4], ",".join(x["what"]),
         json.dumps(x.get("decorated", x.get("decoration", x.get("signature")))))
     rep.violation(what, {"engine": "c18", "module": "checks_c18", "line": x["line"], "variant": x.get("variant", 0), "clauses": x["what"],
-                         "source": x["source"], "kind": kind, "decorator": x["decorator"], "call": x["call"], "expected_binding": x["expected_binding"],
+                         "source": x["source"], "kind": kind, "context": x.get("context", "top"), "decorator": x["decorator"], "call": x["call"], "expected_binding": x["expected_binding"],
                          "decorated": x.get("decorated"), "plain": x.get("plain")})
 
 
